@@ -505,7 +505,9 @@ def clip(
         raise ValueError("`a_min` and `a_max` cannot both be set to `None`")
 
     if a_min is not None:
-        a = maximum(a_min, a, out=out, constant=constant)
+        # `out` receives the final result only: once it holds the output of the first
+        # step it is locked, and the second step could not be written into it
+        a = maximum(a_min, a, out=out if a_max is None else None, constant=constant)
 
     if a_max is not None:
         a = minimum(a_max, a, out=out, constant=constant)
